@@ -1,4 +1,58 @@
+"""pde.tools.math.SmoothData1D by its definition (py-pde 0.58): normalised Gaussian weights
+exp(-(x_i - x)^2 / (2 sigma^2)); `exp` is an abstraction symbol (positive, functionally consistent per
+argument term)"""
+from fractions import Fraction as F
+
+import numpy as _np
+
 from .. import core
+from ..core import SR
+from ..npshim import lift, objarr, symnp
+
+
 class SmoothData1D:
-    def __init__(self, *a, **k):
-        raise core.Abort("unsupported", "SmoothData1D not installed")
+    sigma_auto_scale = 10
+
+    def __init__(self, x, y, sigma=None):
+        self.x = _np.ravel(objarr(_np.asarray(x, dtype=object)))
+        self.y = _np.ravel(objarr(_np.asarray(y, dtype=object)))
+        if self.x.shape != self.y.shape:
+            raise ValueError("`x` and `y` must have equal number of elements")
+        if sigma is None:
+            xs = list(self.x)
+            self.sigma = self.sigma_auto_scale * (core.smax(*xs) - core.smin(*xs)) / len(xs)
+        else:
+            self.sigma = lift(sigma)
+
+    @property
+    def bounds(self):
+        xs = list(self.x)
+        return core.smin(*xs), core.smax(*xs)
+
+    def __contains__(self, x):
+        lo, hi = self.bounds
+        return bool(core.And(lo <= x, x <= hi))
+
+    def __call__(self, xs):
+        xs = symnp.asarray(xs)
+        shape = xs.shape
+        q = _np.ravel(xs)
+        scale = F(1, 2) / (self.sigma * self.sigma)
+        res = _np.empty(len(q), dtype=object)
+        for j, xq in enumerate(q):
+            xq = lift(xq)
+            ws = []
+            for xi in self.x:
+                d = lift(xi) - xq
+                ws.append(lift(-(scale * d * d)).exp())
+            tot = ws[0]
+            for w in ws[1:]:
+                tot = tot + w
+            num = SR(F(0))
+            for w, yi in zip(ws, self.y):
+                num = num + lift(yi) * w
+            res[j] = num / tot         # all weights are positive symbols: the sum is positive
+        return res.reshape(shape)
+
+    def derivative(self, xs):
+        raise core.Abort("unsupported", "SmoothData1D.derivative")
